@@ -123,49 +123,151 @@ func main() {
 		out.Def("testsExpr", "String", xlib.LeanStr(f.Src(fn.Body.List[0])))
 	}
 	{
-		fn := f.Func("findMatchingTestCase")
-		cond := ""
-		ast.Inspect(fn.Body, func(n ast.Node) bool {
-			if is, ok := n.(*ast.IfStmt); ok && cond == "" {
-				cond = normCond(f, is.Cond, "", "")
+		// How does Add decide that an incoming case is "the same" as an existing one?  Either a condition that
+		// compares fields of the two cases one by one (kind "separate"), or a derived key: a helper returning a
+		// concatenation of fields and literals (kind "concat", with the fields in order and the separator), or a
+		// tuple/struct of fields (kind "separate" again).
+		add := f.Func("TestSuite.Add")
+		kind, sep := "", ""
+		var fields []string
+		fieldOf := func(e ast.Expr) string {
+			if se, ok := e.(*ast.SelectorExpr); ok {
+				return se.Sel.Name
 			}
-			return true
-		})
-		// role names: the case being added is the first parameter
-		p0 := fn.Type.Params.List[0].Names[0].Name
-		cond = renameIdent(cond, p0, "NEW")
-		ast.Inspect(fn.Body, func(n ast.Node) bool {
-			if as, ok := n.(*ast.AssignStmt); ok && as.Tok == token.DEFINE && len(as.Lhs) == 1 {
-				if id, ok := as.Lhs[0].(*ast.Ident); ok {
-					if _, isIdx := as.Rhs[0].(*ast.IndexExpr); isIdx {
-						cond = renameIdent(cond, id.Name, "OLD")
+			return ""
+		}
+		var fromCond func(e ast.Expr) bool
+		fromCond = func(e ast.Expr) bool {
+			switch x := e.(type) {
+			case *ast.ParenExpr:
+				return fromCond(x.X)
+			case *ast.BinaryExpr:
+				if x.Op == token.LAND {
+					return fromCond(x.X) && fromCond(x.Y)
+				}
+				if x.Op == token.EQL && fieldOf(x.X) != "" && fieldOf(x.X) == fieldOf(x.Y) {
+					fields = append(fields, fieldOf(x.X))
+					return true
+				}
+			}
+			return false
+		}
+		var fromKeyExpr func(e ast.Expr) bool
+		fromKeyExpr = func(e ast.Expr) bool {
+			switch x := e.(type) {
+			case *ast.ParenExpr:
+				return fromKeyExpr(x.X)
+			case *ast.BinaryExpr:
+				if x.Op == token.ADD {
+					return fromKeyExpr(x.X) && fromKeyExpr(x.Y)
+				}
+			case *ast.BasicLit:
+				if x.Kind == token.STRING {
+					v, _ := strconv.Unquote(x.Value)
+					sep += v
+					return true
+				}
+			case *ast.SelectorExpr:
+				fields = append(fields, x.Sel.Name)
+				return true
+			}
+			return false
+		}
+		// (1) a helper (or Add itself) with an if whose condition compares fields pairwise
+		callees := []*ast.FuncDecl{add}
+		ast.Inspect(add.Body, func(n ast.Node) bool {
+			if c, ok := n.(*ast.CallExpr); ok {
+				name := ""
+				switch fx := c.Fun.(type) {
+				case *ast.Ident:
+					name = fx.Name
+				case *ast.SelectorExpr:
+					name = fx.Sel.Name
+				}
+				for _, d := range f.AST.Decls {
+					if fd, ok := d.(*ast.FuncDecl); ok && fd.Name.Name == name && fd.Body != nil {
+						callees = append(callees, fd)
 					}
 				}
 			}
 			return true
 		})
-		out.Def("matchCond", "String", xlib.LeanStr(cond))
-		add := f.Func("TestSuite.Add")
+		for _, fd := range callees {
+			if kind != "" {
+				break
+			}
+			ast.Inspect(fd.Body, func(n ast.Node) bool {
+				if is, ok := n.(*ast.IfStmt); ok && kind == "" {
+					fields = nil
+					if fromCond(is.Cond) && len(fields) > 0 {
+						kind = "separate"
+					}
+				}
+				return true
+			})
+		}
+		// (2) a key helper: a function whose single statement returns a concatenation / composite of fields
+		if kind == "" {
+			for _, fd := range callees[1:] {
+				if len(fd.Body.List) != 1 {
+					continue
+				}
+				ret, ok := fd.Body.List[0].(*ast.ReturnStmt)
+				if !ok || len(ret.Results) != 1 {
+					continue
+				}
+				fields, sep = nil, ""
+				if cl, ok := ret.Results[0].(*ast.CompositeLit); ok {
+					for _, e := range cl.Elts {
+						if kv, ok := e.(*ast.KeyValueExpr); ok {
+							e = kv.Value
+						}
+						if fieldOf(e) == "" {
+							fields = nil
+							break
+						}
+						fields = append(fields, fieldOf(e))
+					}
+					if len(fields) > 0 {
+						kind = "separate"
+						break
+					}
+				} else if fromKeyExpr(ret.Results[0]) && len(fields) > 0 {
+					kind = "concat"
+					break
+				}
+			}
+		}
+		if kind == "" {
+			xlib.Unreadable("TestSuite.Add: cannot tell how an incoming case is matched against the existing ones")
+		}
+		if kind == "separate" {
+			sort.Strings(fields)
+			sep = ""
+		}
+		out.Def("addMatchKind", "String", xlib.LeanStr(kind))
+		out.Def("addMatchFields", "List String", xlib.LeanStrList(fields))
+		out.Def("addMatchSep", "String", xlib.LeanStr(sep))
 		shape := ""
 		ast.Inspect(add.Body, func(n ast.Node) bool {
 			if is, ok := n.(*ast.IfStmt); ok && shape == "" {
-				thenS, elseS := "", ""
-				if len(is.Body.List) == 1 {
-					thenS = f.Src(is.Body.List[0])
-				}
-				if eb, ok := is.Else.(*ast.BlockStmt); ok && len(eb.List) == 1 {
-					elseS = f.Src(eb.List[0])
-				}
-				k := func(s string) string {
-					switch {
-					case strings.Contains(s, ".Executions = append(") && strings.Contains(s, ".Executions...)"):
-						return "append-executions"
-					case strings.Contains(s, ".TestCases = append("):
-						return "append-case"
+				k := func(b *ast.BlockStmt) string {
+					if b == nil {
+						return "?"
+					}
+					for _, st := range b.List {
+						s := f.Src(st)
+						switch {
+						case strings.Contains(s, ".Executions = append(") && strings.Contains(s, ".Executions...)"):
+							return "append-executions"
+						case strings.Contains(s, ".TestCases = append("):
+							return "append-case"
+						}
 					}
 					return "?"
 				}
-				shape = f.Src(is.Cond) + " ? " + k(thenS) + " : " + k(elseS)
+				eb, _ := is.Else.(*ast.BlockStmt)
+				shape = "found ? " + k(is.Body) + " : " + k(eb)
 			}
 			return true
 		})
